@@ -331,11 +331,16 @@ func rhp2Exchanges(plan []exch, seed int64) exchObs {
 }
 
 func rhp3Exchanges(plan []exch, seed int64) exchObs {
-	exCats()
 	p, err := rhp3Open(dirPlan{}, dirPlan{}, 60*time.Second)
 	if err != nil {
 		return exchObs{Infra: err.Error()}
 	}
+	return rhp3ExchangesOn(p, plan, seed)
+}
+
+// rhp3ExchangesOn carries the conversation out on ONE stream of the established session p (and closes p).
+func rhp3ExchangesOn(p *rhp3Pair, plan []exch, seed int64) exchObs {
+	exCats()
 	// ONE stream for the whole conversation
 	var hs *rhp3.Stream
 	var aerr error
@@ -438,11 +443,16 @@ func rhp4Exchanges(plan []exch, seed int64) exchObs {
 
 // gwExchanges: k RPCs over ONE gateway stream.
 func gwExchanges(plan []exch, seed int64) exchObs {
-	r := rand.New(rand.NewSource(seed))
 	p, err := gwOpen(dirPlan{frames: 3}, dirPlan{frames: 3}, 60*time.Second)
 	if err != nil {
 		return exchObs{Infra: err.Error()}
 	}
+	return gwExchangesOn(p, plan, seed)
+}
+
+// gwExchangesOn carries the conversation out on ONE stream of the established session p (and closes p).
+func gwExchangesOn(p *gwPeer, plan []exch, seed int64) exchObs {
+	r := rand.New(rand.NewSource(seed))
 	defer p.Close()
 	cat := gwCatalogue()
 	type step struct {
